@@ -578,18 +578,21 @@ def ValueReads (ts : Syntax) (tag : Tag) (vr : VR) (vb : Bytes) (v' : PValue) : 
 /-- **Explicit VR, one primitive element.** What `encode_primitive_element` appended to the output is
 read back by `decode_header` as the same tag and VR with the exact (padded, even) value length, and by
 `read_value_preserved` as `v'` — for any following bytes, leaving them untouched, and with the position
-advanced by exactly the number of bytes written. `ValueReads` is discharged per VR class by the
+advanced by exactly the number of bytes written (`hnow`: the value is not bytes under OW, which the
+encoder re-packs into words first). `ValueReads` is discharged per VR class by the
 `value_rt_*` theorems above (`v'` = the value up to the documented trailing padding). -/
 theorem elem_rt_explicit (ts : Syntax) (hts : ts.explicit = true) (e e' : Enc) (hets : e.ts = ts)
     (de : ElemHeader) (v v' : PValue) (ht : de.tag.Valid) (hg : de.tag.group ≠ 0xFFFE)
     (hascii : C04.ValueAscii v) (hsize : (paddedValue ts.bigEndian de.vr v).length < 4294967295)
-    (hw : e.primitiveElement de v = .ok e')
+    (hnow : owWords de.vr v = v) (hw0 : e.encodePrimitiveElement de v = .ok e')
     (hv : ValueReads ts de.tag de.vr (paddedValue ts.bigEndian de.vr v) v') :
     ∃ bs, e'.out = e.out ++ bs ∧ ∀ (dict : Tag → Option VR) (rest : Bytes) (pos : Nat),
       ∃ d1, Dec.decodeHeader ⟨ts, dict, bs ++ rest, pos⟩
               = .ok (⟨de.tag, de.vr, (paddedValue ts.bigEndian de.vr v).length⟩, d1) ∧
             d1.readValuePreserved ⟨de.tag, de.vr, (paddedValue ts.bigEndian de.vr v).length⟩
               = .ok (v', ⟨ts, dict, rest, pos + bs.length⟩) := by
+  have hw : e.primitiveElement de v = .ok e' := by
+    unfold Enc.encodePrimitiveElement at hw0; rwa [hnow] at hw0
   subst hets
   obtain ⟨_, hbs, n, henc, hout⟩ := C04.primitive_element_layout de v hascii hsize hw
   refine ⟨hbs ++ paddedValue e.ts.bigEndian de.vr v, by rw [hout, List.append_assoc], ?_⟩
@@ -609,13 +612,15 @@ for that VR. -/
 theorem elem_rt_implicit (e e' : Enc) (hets : e.ts = .implicitLE) (dict : Tag → Option VR)
     (de : ElemHeader) (v v' : PValue) (ht : de.tag.Valid)
     (hascii : C04.ValueAscii v) (hsize : (paddedValue false de.vr v).length < 4294967295)
-    (hw : e.primitiveElement de v = .ok e')
+    (hnow : owWords de.vr v = v) (hw0 : e.encodePrimitiveElement de v = .ok e')
     (hv : ValueReads .implicitLE de.tag (resolveImplicitVr dict de.tag) (paddedValue false de.vr v) v') :
     ∃ bs, e'.out = e.out ++ bs ∧ ∀ (rest : Bytes) (pos : Nat),
       ∃ d1, Dec.decodeHeader ⟨.implicitLE, dict, bs ++ rest, pos⟩
               = .ok (⟨de.tag, resolveImplicitVr dict de.tag, (paddedValue false de.vr v).length⟩, d1) ∧
             d1.readValuePreserved ⟨de.tag, resolveImplicitVr dict de.tag, (paddedValue false de.vr v).length⟩
               = .ok (v', ⟨.implicitLE, dict, rest, pos + bs.length⟩) := by
+  have hw : e.primitiveElement de v = .ok e' := by
+    unfold Enc.encodePrimitiveElement at hw0; rwa [hnow] at hw0
   have hbe : e.ts.bigEndian = false := by rw [hets]; rfl
   have hsize' : (paddedValue e.ts.bigEndian de.vr v).length < 4294967295 := by rw [hbe]; exact hsize
   obtain ⟨_, hbs, n, henc, hout⟩ := C04.primitive_element_layout de v hascii hsize' hw
